@@ -73,7 +73,9 @@ func (e *ECall) String() string {
 	}
 	return e.Fun.String() + "(" + strings.Join(as, ", ") + ")"
 }
-func (e *ECond) String() string { return "(" + e.C.String() + " ? " + e.A.String() + " : " + e.B.String() + ")" }
+func (e *ECond) String() string {
+	return "(" + e.C.String() + " ? " + e.A.String() + " : " + e.B.String() + ")"
+}
 func (e *EQuant) String() string {
 	q := "exists"
 	if e.Forall {
@@ -545,37 +547,37 @@ func (fc *FuncContract) Of(kind string) []*Clause {
 }
 
 type PredDef struct {
-	Name   string
-	Params []Param
-	Ret    string // "" for pred (bool)
-	Body   Expr
-	Pkg    string
-	Rec    bool
-	Line   int
-	File   string
+	Name     string
+	Params   []Param
+	Ret      string // "" for pred (bool)
+	Body     Expr
+	Pkg      string
+	Rec      bool
+	Line     int
+	File     string
 	Uninterp bool // spec func without body: uninterpreted
-	Axioms []Expr
+	Axioms   []Expr
 }
 
 type LemmaDef struct {
-	Name   string
-	Params []Param
-	Body   Expr
-	Pkg    string
+	Name    string
+	Params  []Param
+	Body    Expr
+	Pkg     string
 	Trusted string // non-empty: trusted, with the stated source (e.g. Lean file)
-	Tags   []string
-	Line   int
-	File   string
+	Tags    []string
+	Line    int
+	File    string
 }
 
 type ContractFile struct {
-	Pkg    string
-	Path   string
-	Funcs  []*FuncContract
-	Preds  []*PredDef
-	Lemmas []*LemmaDef
+	Pkg         string
+	Path        string
+	Funcs       []*FuncContract
+	Preds       []*PredDef
+	Lemmas      []*LemmaDef
 	GhostFields []GhostField
-	StoreHooks []*StoreHook
+	StoreHooks  []*StoreHook
 }
 
 type GhostField struct {
@@ -587,8 +589,8 @@ type GhostField struct {
 // StoreHook: `on store T.f then ghostfield(expr) = expr` – couples a ghost field to writes of a real field.
 type StoreHook struct {
 	Struct, Field string
-	Then   []GhostUpdLoc
-	Line   int
+	Then          []GhostUpdLoc
+	Line          int
 }
 
 type GhostUpdLoc struct {
